@@ -675,6 +675,10 @@ impl CanonicalizeContext {
 				return CanonicalizeContext::assure_mathml(presentation_element);
 			}
 		}
+		if element_name == "mprescripts" &&
+		   mathml.parent().and_then(|parent| parent.element()).is_none_or(|parent| name(&parent) != "mmultiscripts") {
+			bail!("'mprescripts' element is not child of 'mmultiscripts' element");
+		}
 		if !ALL_MATHML_ELEMENTS.contains(element_name) {
 			if element_name == "annotation-xml" {
 				bail!("'annotation-xml' element is not child of 'semantics' element");
